@@ -2,23 +2,34 @@
 
 A scenario builds a REAL transaction with fixed test keys through the public API (Transaction, add_input,
 add_output, sign, verify, raw, parse), applies the requested signing calls / field changes / signature-list edits
-and reports, at every V (live object) and R (Transaction.parse(t.raw())) step, the library's verdict, Input.valid,
-and — computed here with fastecdsa directly on the library's signature_hash output, from (r, s) and our own
-table of curve points — which signature is valid for which listed key (the oracle matrix)."""
-import sys, os, logging, hashlib
+and reports, at every V (live object), R (Transaction.parse(t.raw())), Q (parse of raw() with hash-type bytes of
+serialized signatures changed) and C (inputs rebuilt from serialized signatures through add_input) step, the
+library's verdict, Input.valid, and the oracle matrix: which signature is valid for which listed key, computed here
+WITHOUT the library — the digest is the consensus digest (independent legacy SignatureHash / BIP143 code of
+harness/props/c01.py) FOR THE HASH TYPE THE SIGNATURE CARRIES, over the fields read from the serialized bytes with an
+own parser; for R and Q the signatures (r, s, hash-type byte) are read from the bytes as well; ECDSA is fastecdsa
+called directly with our own table of curve points."""
+import sys, os, logging, hashlib, struct
 from copy import deepcopy
-sys.path.insert(0, os.path.dirname(os.path.abspath(__file__)))
+_HERE = os.path.dirname(os.path.abspath(__file__))
+sys.path.insert(0, _HERE)
+sys.path.insert(1, os.path.dirname(_HERE))
+sys.path.insert(2, os.path.join(os.path.dirname(_HERE), 'props'))
 from common_impl import serve
+import c01 as SPEC          # independent sighash + raw reader (protocol text; imports nothing from the library)
 logging.disable(logging.CRITICAL)
 from bitcoinlib.transactions import Transaction, TransactionError
 from bitcoinlib.keys import Key, Signature, sign
 from fastecdsa import _ecdsa
+from fastecdsa import ecdsa as _fe_ecdsa
 from fastecdsa.curve import secp256k1 as CURVE
 from fastecdsa.keys import get_public_key
 
 N = CURVE.q
 CP = [str(x) for x in (CURVE.p, CURVE.a, CURVE.b, CURVE.q, CURVE.gx, CURVE.gy)]
-TYPES = {'pkh': ('sig_pubkey', 'legacy'), 'wpkh': ('sig_pubkey', 'segwit'), 'shwpkh': ('p2sh_p2wpkh', 'p2sh-segwit'),
+KIND = {'pkh': 'p2pkh', 'pk': 'p2pk', 'sh': 'p2sh_multisig', 'wpkh': 'p2wpkh', 'shwpkh': 'p2sh_p2wpkh', 'wsh': 'p2wsh',
+        'shwsh': 'p2sh_p2wsh'}
+TYPES = {'pkh': ('sig_pubkey', 'legacy'), 'pk': ('signature', 'legacy'), 'wpkh': ('sig_pubkey', 'segwit'), 'shwpkh': ('p2sh_p2wpkh', 'p2sh-segwit'),
          'sh': ('p2sh_multisig', 'legacy'), 'wsh': ('p2sh_multisig', 'segwit'), 'shwsh': ('p2sh_p2wsh', 'p2sh-segwit')}
 OUT_ADDR = ['1BvBMSEYstWetqTFn5Au4m4GFg7xJaNVN2', '1HLoD9E4SDFFPDiYfNYnkBLQ85Y51J3Zb1']
 
@@ -64,35 +75,195 @@ def ec_valid(r, s, digest, pt):
     return _vcache[k]
 
 
-def matrix(t):
-    per_input = []
-    for i, inp in enumerate(t.inputs):
-        if not inp.signatures:
-            per_input.append('-')
-            continue
-        try:
-            h = t.signature_hash(i, 1, inp.witness_type)
-        except Exception:
-            per_input.append('?')
-            continue
-        rows = []
-        for sg in inp.signatures:
-            row = ''
-            for k in inp.keys:
-                pt = POINT_OF_PUB.get(k.public_byte)
-                row += '?' if pt is None else ('1' if ec_valid(sg.r, sg.s, h, pt) else '0')
-            rows.append(row)
-        per_input.append(','.join(rows) if rows else '-')
-    return '|'.join(per_input)
+class Ctx:
+    """what no serialization carries: the outputs being spent (kind, listed keys, threshold, amount), per input"""
+
+    def __init__(self, specs):
+        self.specs = specs
+        self.values = [100000 + i for i in range(len(specs))]
+
+    def desc(self):
+        out = []
+        for (ty, m, ks), v in zip(self.specs, self.values):
+            keys = []
+            for k in ks:
+                i, c = tok(k)
+                secret(i)
+                b = bytes.fromhex(_pubhex[(i, c)])
+                if b not in keys:                      # Input keeps a key once
+                    keys.append(b)
+            out.append(dict(kind=KIND[ty], keys=keys, m=(m if ty in ('sh', 'wsh', 'shwsh') else 1), value=v))
+        return out
 
 
-def observe(t):
+def spec_tx(raw, ctx):
+    """the transaction as the consensus digest sees it: serialized fields from the bytes, spent outputs from ctx"""
+    rt = SPEC.read_raw(raw)
+    ins = [dict(prev=ri['prev'], vout=ri['vout'], seq=ri['seq'], **d) for ri, d in zip(rt['ins'], ctx.desc())]
+    return dict(ver=rt['ver'], lock=rt['lock'], outs=rt['outs'], ins=ins), rt
+
+
+def serialized_sigs(kind, ri):
+    """the signature items of one input of a serialized transaction, by the layout of its kind"""
+    if kind in ('p2wpkh', 'p2sh_p2wpkh'):
+        return ri['wit'][:1] if len(ri['wit']) == 2 else []
+    if kind in ('p2wsh', 'p2sh_p2wsh'):
+        return ri['wit'][1:-1] if len(ri['wit']) >= 2 else []
+    ss = SPEC.pushes(ri['script'])
+    if kind == 'p2pkh':
+        return ss[:1] if len(ss) == 2 else []
+    if kind == 'p2pk':
+        return ss[:1]
+    return ss[1:-1] if len(ss) >= 2 else []          # p2sh multisig: OP_0 <sig>... <redeemScript>
+
+
+def matrix_rows(tx, i, sigs):
+    """sigs: [(r, s, hash-type byte)] -> rows over the listed keys of input i"""
+    rows, dig = [], {}
+    for r, s_, ht in sigs:
+        if ht not in dig:
+            dig[ht] = SPEC.consensus_sighash(tx, i, ht)[1]
+        row = ''
+        for k in tx['ins'][i]['keys']:
+            pt = POINT_OF_PUB.get(k)
+            row += '?' if pt is None else ('1' if ec_valid(r, s_, dig[ht], pt) else '0')
+        rows.append(row)
+    return ','.join(rows) if rows else '-'
+
+
+def matrix_objects(raw, ctx, per_input_sigs):
+    try:
+        tx, _ = spec_tx(raw, ctx)
+        return '|'.join(matrix_rows(tx, i, sigs) for i, sigs in enumerate(per_input_sigs))
+    except Exception:
+        return '?'
+
+
+def matrix_raw(raw, ctx):
+    try:
+        tx, rt = spec_tx(raw, ctx)
+        per = []
+        for i, ri in enumerate(rt['ins']):
+            sigs = [SPEC.der_sig(b) for b in serialized_sigs(tx['ins'][i]['kind'], ri)]
+            per.append(matrix_rows(tx, i, sigs))
+        return '|'.join(per)
+    except Exception:
+        return '?'
+
+
+def observe(t, mat):
     try:
         v = t.verify()
     except Exception as e:
         return 'VE:' + type(e).__name__
     flags = ''.join('T' if i.valid is True else 'F' if i.valid is False else 'N' for i in t.inputs)
-    return 'V%s/%s/%s' % ('T' if v else 'F', flags, matrix(t))
+    return 'V%s/%s/%s' % ('T' if v else 'F', flags, mat)
+
+
+def observe_live(t, ctx):
+    sigs = [[(sg.r, sg.s, sg.hash_type) for sg in inp.signatures] for inp in t.inputs]
+    return observe(t, matrix_objects(t.raw(), ctx, sigs))
+
+
+def parse_and_observe(raw, ctx):
+    t2 = Transaction.parse(raw)
+    for p, ((ty, m, ks), a) in enumerate(zip(ctx.specs, t2.inputs)):
+        a.value = ctx.values[p]            # the amount is not part of the serialization; the verifier supplies it
+        if ty == 'pk':                     # ... and the key of a pay-to-pubkey output
+            a.keys = [pub(ks[0])]
+            t2.update_inputs(p)
+    return observe(t2, matrix_raw(raw, ctx))
+
+
+# ---------------------------------------------------------------- hash-type byte of serialized signatures
+def der(r, s):
+    def i2b(n):
+        b = n.to_bytes((n.bit_length() + 7) // 8 or 1, 'big')
+        return b'\x02' + bytes([len(b) + (b[0] >> 7)]) + (b'\x00' if b[0] >> 7 else b'') + b
+    body = i2b(r) + i2b(s)
+    return b'\x30' + bytes([len(body)]) + body
+
+
+def ser_raw(rt, segwit):
+    r = struct.pack('<I', rt['ver']) + (b'\x00\x01' if segwit else b'') + SPEC.cs(len(rt['ins']))
+    for x in rt['ins']:
+        r += x['prev'] + struct.pack('<I', x['vout']) + SPEC.cs(len(x['script'])) + x['script'] + struct.pack('<I', x['seq'])
+    r += SPEC.cs(len(rt['outs'])) + b''.join(SPEC.ser_out(o) for o in rt['outs'])
+    if segwit:
+        for x in rt['ins']:
+            r += SPEC.cs(len(x['wit'])) + b''.join(SPEC.cs(len(w)) + w for w in x['wit'])
+    return r + struct.pack('<I', rt['lock'])
+
+
+def patch_raw(raw, ctx, patches):
+    """set the last byte of serialized signature `pos` of input `i` to `ht` (own reader and writer; a signature that is
+    not serialized is left alone)"""
+    rt = SPEC.read_raw(raw)
+    segwit = raw[4:6] == b'\x00\x01'
+    if ser_raw(rt, segwit) != raw:
+        raise ValueError('own serializer does not reproduce raw()')
+    desc = ctx.desc()
+    for i, pos, ht in patches:
+        if i >= len(rt['ins']):
+            continue
+        ri, kind = rt['ins'][i], desc[i]['kind']
+        if kind in SPEC.SEGWIT_KINDS:
+            first = 0 if kind in ('p2wpkh', 'p2sh_p2wpkh') else 1
+            n = len(serialized_sigs(kind, ri))
+            if pos < n:
+                w = ri['wit'][first + pos]
+                ri['wit'][first + pos] = w[:-1] + bytes([ht])
+        else:
+            items = SPEC.pushes(ri['script'])
+            first = 0 if kind in ('p2pkh', 'p2pk') else 1
+            n = len(serialized_sigs(kind, ri))
+            if pos < n:
+                items[first + pos] = items[first + pos][:-1] + bytes([ht])
+                ri['script'] = b''.join(SPEC.push(x) for x in items)
+    return ser_raw(rt, segwit)
+
+
+def parse_patches(f):
+    return [] if f == '-' else [tuple(int(x) for x in p.split('.')) for p in f.split(',')]
+
+
+def ctor_and_observe(t, ctx, patches):
+    """the same transaction built anew, every input through Transaction.add_input(keys=..., signatures=[DER || hash-type
+    byte, ...]) with the bytes changed as requested; the matrix is computed from the bytes handed over"""
+    per = []
+    for i, inp in enumerate(t.inputs):
+        l = [[sg.r, sg.s, sg.hash_type] for sg in inp.signatures]
+        for pi, pos, ht in patches:
+            if pi == i and pos < len(l):
+                l[pos][2] = ht
+        per.append([tuple(x) for x in l])
+    t3 = Transaction(network='bitcoin', witness_type=t.witness_type, version=t.version_int, locktime=t.locktime)
+    for i, ((ty, m, ks), inp) in enumerate(zip(ctx.specs, t.inputs)):
+        st, wt = TYPES[ty]
+        t3.add_input(inp.prev_txid, inp.output_n_int, keys=[pub(k) for k in ks], script_type=st,
+                     sigs_required=(m if ty in ('sh', 'wsh', 'shwsh') else None), witness_type=wt, value=inp.value,
+                     sequence=inp.sequence, signatures=[der(r, s_) + bytes([ht]) for r, s_, ht in per[i]])
+    for o in t.outputs:
+        t3.add_output(o.value, lock_script=o.lock_script)
+    return observe(t3, matrix_objects(t3.raw(), ctx, per))
+
+
+def place(t, ctx, i, ht, keys):
+    """third-party signatures: made HERE (fastecdsa, RFC 6979) over the consensus digest of input i for hash type ht,
+    carrying the byte ht, put into the input in the order given"""
+    tx, _ = spec_tx(t.raw(), ctx)
+    digest = SPEC.consensus_sighash(tx, i, ht)[1]
+    l = []
+    for k in keys:
+        r, s_ = _fe_ecdsa.sign(digest, secret(tok(k)[0]), curve=CURVE, prehashed=True)
+        if s_ > N // 2:
+            s_ = N - s_
+        l.append(Signature(r, s_, public_key=pub(k), hash_type=ht))
+    inp = t.inputs[i]
+    inp.signatures = l
+    inp.unlocking_script = b''
+    inp.witnesses = []
+    inp.update_scripts(hash_type=1)
 
 
 def build(ins):
@@ -109,14 +280,14 @@ def build(ins):
                     sigs_required=(m if multi else None), witness_type=wt, value=100000 + i)
     t.add_output(60000, address=OUT_ADDR[0])
     t.add_output(30000, address=OUT_ADDR[1])
-    return t
+    return t, Ctx(specs)
 
 
 def flip_last(b):
     return b[:-1] + bytes([b[-1] ^ 1])
 
 
-def tamper(t, name, arg):
+def tamper(t, ctx, name, arg):
     """apply ('+') or revert ('-') one change of a committed field; both directions are the same toggle or +-1"""
     j, d = int(arg[:-1]), (1 if arg[-1] == '+' else -1)
     if name == 'outv':
@@ -137,6 +308,7 @@ def tamper(t, name, arg):
         t.version = t.version_int.to_bytes(4, 'big')
     elif name == 'inv':
         t.inputs[j].value += d
+        ctx.values[j] += d
     else:
         raise ValueError(name)
 
@@ -199,7 +371,7 @@ def unalias(t):
 
 
 def scenario(ins, ops):
-    t = build(ins)
+    t, ctx = build(ins)
     out = []
     for o in (ops.split(';') if ops != '-' else []):
         f = o.split('/')
@@ -216,18 +388,26 @@ def scenario(ins, ops):
                 out.append('S2')
             unalias(t)
         elif f[0] == 'V':
-            out.append(observe(t))
+            out.append(observe_live(t, ctx))
         elif f[0] == 'R':
             try:
-                t2 = Transaction.parse(t.raw())
-                for a, b in zip(t2.inputs, t.inputs):
-                    a.value = b.value          # the amount is not part of the serialization; the verifier supplies it
+                out.append(parse_and_observe(t.raw(), ctx))
             except Exception as e:
                 out.append('RE:' + type(e).__name__)
-                continue
-            out.append(observe(t2))
+        elif f[0] == 'Q':
+            try:
+                out.append(parse_and_observe(patch_raw(t.raw(), ctx, parse_patches(f[1])), ctx))
+            except Exception as e:
+                out.append('QE:' + type(e).__name__)
+        elif f[0] == 'C':
+            try:
+                out.append(ctor_and_observe(t, ctx, parse_patches(f[1])))
+            except Exception as e:
+                out.append('CE:' + type(e).__name__)
+        elif f[0] == 'P':
+            place(t, ctx, int(f[1]), int(f[2]), f[3].split(',') if f[3] != '-' else [])
         elif f[0] == 'T':
-            tamper(t, f[1], f[2])
+            tamper(t, ctx, f[1], f[2])
         elif f[0] == 'X':
             edit(t, int(f[1]), f[2], int(f[3]), f[4] if len(f) > 4 else None)
         else:
